@@ -1,5 +1,6 @@
 #![recursion_limit = "512"]
 mod common;
+mod pgconfig;
 mod syncmgr;
 
 use std::io::BufRead;
@@ -37,6 +38,10 @@ fn main() {
                 k => panic!("unknown kind {}", k),
             }
         }
+        Some("cases") => match args[2].as_str() {
+            "pgconfig" => pgconfig::run(&args[3], arg_val(&args, "--result")),
+            k => panic!("unknown case kind {}", k),
+        },
         _ => {
             eprintln!("usage: xh replay <paths.jsonl> ...");
             std::process::exit(2)
